@@ -20,6 +20,9 @@ type c08Case struct {
 	W        WCase  `json:"w"`
 	WCs      [2]int `json:"other_wcs"` // the script is executed under W.WC and these
 	Fault    *Fault `json:"fault,omitempty"`
+	// RAEOF: the io.ReaderAt handed to HasEOF returns the final bytes of the
+	// file together with io.EOF (legal for an io.ReaderAt).
+	RAEOF bool `json:"readat_eof_with_data,omitempty"`
 }
 
 type c08 struct{}
@@ -62,6 +65,7 @@ func (c08) Gen(t *Tape, tier string, run int) interface{} {
 	if t.Chance("work", 1, 6) {
 		c.Fault = &Fault{Op: "write", At: t.Draw("work", 5), Kind: []string{"err", "partial"}[t.Draw("work", 2)], Persistent: t.Bool("work")}
 	}
+	c.RAEOF = t.Chance("work", 1, 3)
 	return c
 }
 
@@ -118,7 +122,7 @@ func (c08) Exec(x *Exec, ci interface{}) *Verdict {
 	for i, wc := range wcs {
 		w := c.W
 		w.WC = wc
-		file := &File{X: x, Name: "f", MaxDelay: c.W.MaxDelay}
+		file := &File{X: x, Name: "f", MaxDelay: c.W.MaxDelay, EOFWithData: c.RAEOF}
 		if c.Fault != nil {
 			file.Faults = []Fault{*c.Fault}
 		}
@@ -259,6 +263,11 @@ func (c08) Shrinks(ci interface{}) []interface{} {
 	if c.Fault != nil {
 		n := *c
 		n.Fault = nil
+		out = append(out, &n)
+	}
+	if c.RAEOF {
+		n := *c
+		n.RAEOF = false
 		out = append(out, &n)
 	}
 	return out
